@@ -69,7 +69,7 @@ def main():
             os.makedirs(scratch + '/pkg', exist_ok=True)
             if not os.path.exists(scratch + '/pkg/cpppo'):
                 os.symlink(scratch + '/wt', scratch + '/pkg/cpppo')
-            text = re.sub(r'/tmp/agent2?_C\d\d', scratch, open(os.path.join(d, 'demo.py')).read())
+            text = re.sub(r'/tmp/agent\d?_C\d\d', scratch, open(os.path.join(d, 'demo.py')).read())
             os.makedirs(scratch + '/out/m', exist_ok=True)
             open(scratch + '/out/m/demo.py', 'w').write(text)
             try:
